@@ -175,14 +175,17 @@ def thm_case(rng, i):
     if P.endswith("\\") or P == "":
         P += "x"
     exp = L0 + ("" if P[0] in "\n\r" else W) + with_indent(W, P) + R
-    tag = "{{> p}}"
-    if rng.chance(0.3):
+    # … for EVERY partial name (the family of C12.standalone_named_partial_is_indented): any run of the grammar's partial_symbol_char
+    # class – letters, digits, `-`, `_`, `/`, `.`, everything from U+0080 up
+    pname = rng.pick(["p", "p", "dir/name.hbs", "\u00e9-1", "a.b", "x_y", "0", "\U0001F600", "p/q/r", "\u0080", "\uffff.\U0010ffff", "-", "_", "this", "else", "if"])
+    tag = "{{> %s}}" % pname
+    if pname == "p" and rng.chance(0.3):
         # the same call written {{> p~}}: the `~` removes the whitespace that FOLLOWS the tag (the line break the standalone rule
         # removes anyway, and whatever whitespace the next line begins with) – the indentation of the partial's output is untouched
         tag = "{{> p~}}"
         from .C11 import WS as _WS11
         exp = L0 + ("" if P[0] in "\n\r" else W) + with_indent(W, P) + R.lstrip(_WS11)
-    ops = [{"op": "reg_string", "reg": 0, "name": "p", "src": P},
+    ops = [{"op": "reg_string", "reg": 0, "name": pname, "src": P},
            {"op": "render", "reg": 0, "api": "render_template", "src": L0 + W + tag + nl + R, "data": enc({})}]
     return {"kind": "session", "regs": [{"escape": "none"}], "ops": ops}, {"thm": True, "expect": exp, "W": W, "where": "thm", "n": 1, "pi": False, "p": P}
 
